@@ -156,11 +156,12 @@ def _run_job(modname, subname, tier, seed, shard, nshards, outpath, journal):
     scratch = os.path.join(SCRATCH, "job-%d" % os.getpid())
     os.makedirs(scratch, exist_ok=True)
     ctx = None
-    try:
-        import faulthandler
-        faulthandler.dump_traceback_later(float(os.environ.get("VERIF_DUMP_AFTER", "400")), exit=False)
-    except Exception:
-        pass
+    if os.environ.get("VERIF_DUMP_AFTER"):      # debugging aid only: the watchdog thread can itself crash long jobs
+        try:
+            import faulthandler
+            faulthandler.dump_traceback_later(float(os.environ["VERIF_DUMP_AFTER"]), exit=False)
+        except Exception:
+            pass
     try:
         from . import build
         mod = importlib.import_module(modname)
